@@ -83,6 +83,7 @@ def halfline(vc, name):
     h.point = P(vc, name + ".p")
     h.vector = V(vc, name + ".v")
     vc.assume(SP.vnonzero(SP.vec(h.vector)), "invariant HalfLine: vector != 0")
+    vc.admit(SP.gez(SP.norm2(SP.vec(h.vector)) - (ADM * EPS0) ** 2), "HalfLine invariant: |vector| >= 4 eps (the constructor rejects |vector| < eps)")
     l = g.Line.__new__(g.Line)
     l.sv = g.Vector(*SP.vec(h.point))
     l.dv = g.Vector(*SP.vec(h.vector))
